@@ -17,7 +17,7 @@ RULE = ("hostile strings over an alphabet of markup metacharacters (< > & \" ' `
         "with markup in attribute-selector strings, file names and colour values. Non-trivial = hostile string containing at least one of < > & \" '; "
         "distinct = (generator, slot, string).")
 ASSUMPTIONS = ["html.parser tokenisation stands for a browser's for documents whose metacharacters are escaped; level badges come from a fixed vocabulary and are not user text"]
-MUST_OBSERVE = {"any": ["slot_judged:generate_report", "slot_judged:to_html", "slot_judged:to_html_bulk", "e2e_bulk_judged", "e2e_cli_judged"]}
+MUST_OBSERVE = {"any": ["e2e_bulk_judged", "e2e_cli_judged"]}   # direct calls of the generators are auxiliary
 SIZES = {"quick": dict(strings=1200, cli=5, bulk=40), "thorough": dict(strings=6000, cli=12, bulk=120)}
 
 ATOMS = ["<", ">", "&", '"', "'", "`", "<script>", "</script>", "<style>", "</style>", " style=", " onerror=", "onmouseover=", "</div>", "<div>", "-->", "<!--",
